@@ -34,6 +34,7 @@ type Cfg struct {
 	Faults         int // weight of arming an I/O fault (0 = never)
 	FaultKinds     string // kinds of calls an armed fault may hit ("" = all; see drv.OpArmFault)
 	TearMeta       int // weight of tearing the older meta slot between sessions (0 = never)
+	MidReaders     int // percentage of commits during which a reader is begun from inside the commit (I/O hook)
 }
 
 func DefaultCfg() Cfg {
@@ -270,6 +271,18 @@ func Next(t *rapid.T, e *drv.Env, cfg Cfg) drv.Op {
 	}
 	ws = append(ws, weighted{3, drv.OpDumpTx})
 	k := pick(t, "rwop", ws)
+	if k == drv.OpCommit && cfg.MidReaders > 0 && cfg.Readers && len(e.RO) < cfg.MaxReaders && rapid.IntRange(0, 99).Draw(t, "midreader") < cfg.MidReaders {
+		// a reader begins while the writer stands at one of the I/O calls of this commit
+		id := 1
+		for e.RO[id] != nil {
+			id++
+		}
+		op := drv.Op{Op: k, Tx: id, U: uint64(rapid.IntRange(1, 10).Draw(t, "midat"))}
+		if e.FaultArmed() && rapid.Bool().Draw(t, "midatfault") {
+			op.Note = "atfault" // exactly at the call the armed fault is going to fail
+		}
+		return op
+	}
 	if k != "bucketop" {
 		return drv.Op{Op: k}
 	}
